@@ -23,6 +23,12 @@ def gen_inputs(seed, count, path):
         special.append("SELECT $$" + "é" * (n // 2) + "$$, 1")
     special += ["SELECT (" * 70, "] " * 80 + "SELECT 1", "; ".join("SELECT (%d" % i for i in range(70)), "SELECT " + "(" * 64 + "a" + " OR b)" * 60,
                 "SELEC 1; INSRT 2; " * 40 + "SELECT 3"]
+    # code the statement LOOP runs between statements (runs of empty statements before, between and after; PARALLEL WITH chains,
+    # one top-level statement built from several statement parses), NUL bytes (the lexer's end-of-input value) in every region
+    special += ["SELECT 1;;;;", "SELECT 1;;;;;;;;", "SELECT 1 ;;; ", ";;;;;", ";;;;SELECT 1", "SELECT 1;;;; ;;;;SELECT 2;;;;;", "SELECT 1; ; ; ; ; ; SELECT 2 ; ; ; ;",
+                "SELECT 1 PARALLEL WITH SELECT 2", "SELECT 1 PARALLEL WITH SELECT 2 PARALLEL WITH DROP TABLE t; SELECT 3", "DROP TABLE a PARALLEL WITH DROP TABLE b;;;;",
+                "SELECT 1;\x00", "SELECT 1;\x00 SELECT 2; SELECT 3", "SELECT 1; SELECT 2\x00 FROM t WHERE", "SELECT '\x00' AS a; SELECT 2", "\x00SELECT 1", "SELECT 1 /* \x00 */ ; SELECT 2",
+                "SELECT " + " " * 4087 + ";\x00 SELECT 2", "SELECT " + "a" * 4087 + "\x00; SELECT 2"]
     boundary = []
     # a lexically significant fragment straddling the bufio fill boundary (4096 / 8192), inside and outside quoted contexts
     for (op, cl) in (("SELECT 1 /* ", " */ , 2; SELECT 3"), ("SELECT '", "' AS s; SELECT 3"), ("SELECT 1 AS `", "`; SELECT 3"), ("SELECT 1 -- ", "\n, 2; SELECT 3"), ("SELECT ", " , 2; SELECT 3")):
@@ -56,7 +62,7 @@ def run_readers(rep, mode, count, maxpoints):
     dist = gen_inputs(rep.seed, count, cases)
     outp = cases + ".out"
     rc, err = verif.parallel_map_files([os.path.join(verif.BUILD, "readers"), "-mode", mode, "-seed", str(rep.seed), "-maxpoints", str(maxpoints)],
-                                       cases, outp, timeout=3000)
+                                       cases, outp, timeout=3000, mem_kb=16000000)
     res = {"dist": dist, "inputs": 0, "runs": 0, "violations": [], "rc": rc, "err": err[-500:], "samples": []}
     with open(outp) as f:
         for i, line in enumerate(f):
